@@ -67,6 +67,10 @@ MC = {
     "one": ({"MaxWrites": "= 2", "MaxCloses": "= 1"}, INV_ONE),
     "two": (dict(TWO, MaxWrites="= 2", MaxCloses="= 0"), INV_TWO),
     "one_g3": ({"MaxWrites": "= 1", "MaxCloses": "= 0", "MaxGen": "= 3"}, INV_ONE),
+    "one_w3": ({"MaxWrites": "= 3", "MaxCloses": "= 0"}, INV_ONE),
+    # every interleaving of the halves of spawn_process / kill_process as well (Atomic = FALSE)
+    "one_na": ({"MaxWrites": "= 1", "MaxCloses": "= 0", "Atomic": "= FALSE"}, INV_ONE),
+    "two_na": (dict(TWO, MaxWrites="= 0", MaxCloses="= 0", Atomic="= FALSE"), INV_TWO),
     "cex": (dict(TWO, MaxWrites="= 0", MaxCloses="= 0", Record="= TRUE"), ["NoOrphanDump"]),
 }
 SIM = {"Workers": "<- W3", "Reds": "<- R2", "RedOf": "<- Sim3", "MaxFd": "= 8", "MaxWrite": "= 6", "PipeCap": "= 6",
@@ -77,8 +81,8 @@ REDOF = {"sim": {1: 1, 2: 1, 3: 2}, "two": {1: 1, 2: 2}}
 MODEL_BUFFER = 2
 
 TIERS = {
-    "quick": {"mc": ["one_q", "two_q"], "sim_num": 150, "sim_shards": 4, "live_gens": 20, "live_timeout": 240},
-    "thorough": {"mc": ["one", "two", "one_g3"], "sim_num": 600, "sim_shards": 8, "live_gens": 200,
+    "quick": {"mc": ["one_q", "two_q", "two_na"], "sim_num": 150, "sim_shards": 4, "live_gens": 20, "live_timeout": 240},
+    "thorough": {"mc": ["one", "two", "one_w3", "one_g3", "one_na", "two_na"], "sim_num": 600, "sim_shards": 8, "live_gens": 200,
                  "live_timeout": 900},
 }
 
@@ -103,6 +107,8 @@ def _decode_lines(out, tag):
         m = pat.match(line)
         if m:
             res.append(json.loads(json.loads(m.group(1))))
+        elif line.startswith('<<"%s"' % tag):
+            raise RuntimeError("cannot parse a %s line printed by TLC: %s ..." % (tag, line[:200]))
     return res
 
 
@@ -721,7 +727,7 @@ def live_main(repo, gens, seed, scratch):
             if quiesce:
                 # every running worker must get everything through, whatever happened to its siblings meanwhile
                 alive = [pid for pid, p in w.processes.items() if info[pid]["mode"] != "exit"]
-                ok = yield wait_complete(alive, 120)
+                yield wait_complete(alive, 120)
                 bad = check_labels()
                 for pid in alive:
                     bad = bad or check_prefix(pid)
